@@ -18,7 +18,7 @@ def _outcome(ex, viol, step, nontrivial, extra=None, trace_digest=None):
 
 
 def case_from_json(j):
-    if "chain" in j or "cyclic" in j:
+    if "chain" in j or "cyclic" in j or "collide" in j:
         return j
     return {"cfg": j["cfg"], "spec": j["spec"], "ops": [tuplify(o) for o in j["ops"]],
             **{k: tuplify(v) for k, v in j.items() if k not in ("cfg", "spec", "ops")}}
@@ -47,6 +47,8 @@ class C01:
     def generate(ctx, run):
         if run % 40 == 7:
             return gen_chain_case(ctx, run, "C01")      # 2.5 % of the runs: chains of 1000+ dependants
+        if run % 200 == 13:
+            return gen_collide_case(ctx, run, "C01")    # 0.5 %: two task ids with colliding hashes
         return gen_history_case(ctx, run, "C01")
 
     @staticmethod
@@ -55,6 +57,8 @@ class C01:
             return exec_chain(ctx, case, prop)
         if "cyclic" in case:
             return exec_cyclic(ctx, case, prop)
+        if "collide" in case:
+            return exec_collide(ctx, case, prop)
         spec = Spec.from_json(case["spec"])
         cfg = case["cfg"]
         ex = Exec(ctx.xd, spec, cfg["g_restricted"], cfg["salt"])
@@ -137,6 +141,7 @@ DRIVERS = {"C01": C01, "C02": C02}
 # C03: history independence (refinement against a freshly built manager)
 # ---------------------------------------------------------------------------
 from . import oracles as O
+from ..containers import FUNCS as FUNCS_REG
 from ..containers import raw_set
 from .world import World, run_traced
 
@@ -351,7 +356,7 @@ class C18:
                     op = canonical_assignment(ref.model, ops[ci])
                 except Exception:
                     continue
-                strict = (op[0] == "setc") or (op[0] == "setv" and op[1] not in ref.model.defs)
+                strict = (op[0] == "setc") or (op[0] == "setv" and op[1] not in ref.model.defs and op[1] not in ref.model.ft_target)
                 st = ref.step(op)
                 if st is None or st.exc is not None or not st.info.trig:
                     continue
@@ -476,11 +481,12 @@ def classify_frozen(model, op):
     except ModelReject:
         return None
     if k == "setv":
-        return "mutator" if op[1] in model.defs else "plain"
-    if k == "setc":
+        # over an expression, or over the reference a function task is registered under: removes that task
+        return "mutator" if (op[1] in model.defs or op[1] in model.ft_target) else "plain"
+    if k in ("setc", "setfunc"):
         return "plain"
     if k == "inpl":
-        if op[1] in model.defs:
+        if op[1] in model.defs or op[1] in model.ft_target:
             return "mutator"
         return "plain" if op[3][0] == "lit" else "mutator"
     if k in ("load", "copyfrom"):
@@ -877,6 +883,9 @@ def text_roundtrip(prop, world, expr, where):
 def copy_contents(src_world, dst_world):
     for loc, v in src_world.contents().items():
         raw_set(dst_world._container(loc[:-1]), loc[-1][1], v)
+    if "f" in src_world.rootobj and "f" in dst_world.rootobj:
+        for slot, impl in src_world.rootobj["f"]._impl().items():
+            object.__setattr__(dst_world.rootobj["f"], slot, FUNCS_REG[impl])
 
 
 class C11:
@@ -976,6 +985,7 @@ class C11:
                     # model of the destination: current values, the pre-registered definitions, then the copied ones
                     mD = Model(spec)
                     mD.val = dict(S.contents())
+                    mD.funcs = dict(ex.model.funcs)
                     if wrap:
                         # below a rebound label every task reads and writes the holder container: the public
                         # task graph is cyclic by construction (KF-1 territory), the model knows
@@ -1328,6 +1338,8 @@ class C20:
 
     @staticmethod
     def generate(ctx, run):
+        if run % 150 == 11:
+            return gen_collide_case(ctx, run, "C20")
         rc = rng_for(ctx.seed, "C20", run, "cfg")
         cfg = swarm_config(rc, ctx.tier, weights_over={"load": 3, "refresh": 1})
         cfg["g_restricted"] = rc.random() < 0.8
@@ -1369,6 +1381,10 @@ class C20:
     def execute(ctx, case):
         prop = "C20"
         xd = ctx.xd
+        if "collide" in case:
+            o = exec_collide(ctx, case, prop)
+            o["violation"] = None            # the transcript (the three values) is compared across configurations
+            return o
         spec = Spec.from_json(case["spec"])
         cfg = case["cfg"]
         ex = Exec(xd, spec, cfg["g_restricted"], cfg["salt"])
@@ -1592,3 +1608,62 @@ def exec_cyclic(ctx, case, prop):
         if viol:
             break
     return {"violation": (dict(viol.to_json(), step=None) if viol else None), "nontrivial": True, "stats": stats, "extra": {}, "trace_digest": "cyclic"}
+
+
+# ---------------------------------------------------------------------------
+# dedicated scenario: two task ids whose (32-bit, compiled build) hashes collide, in one propagation
+# ---------------------------------------------------------------------------
+def gen_collide_case(ctx, run, prop):
+    r = rng_for(ctx.seed, prop, run, "collide")
+    salt = "".join(r.choice("abcdefghijklmnopqrstuvwxyz") for _ in range(3))
+    return {"collide": {"salt": salt, "n": 150000, "x": r.choice([5.0, -2.5, 7.0]), "order": r.choice(["XYs", "YXs", "sXY", "XsY"])}}
+
+
+def exec_collide(ctx, case, prop):
+    """Equality of references is decided by their text, the hash is only a hash: two different task ids with the same
+    hash (the compiled module keeps 32 bits) must both run.  A colliding pair is searched among n references of this
+    interpreter (found with probability ~0.9); without one the scenario is a no-op."""
+    co = case["collide"]
+    xd = ctx.xd
+    from ..containers import SimDict
+    salt = co["salt"]
+    mgr = xd.Manager()
+    d = SimDict()
+    r = mgr.ref(d, "r" + salt)
+    seen = {}
+    pair = None
+    for i in range(co["n"]):
+        k = "q%d%s" % (i, salt)
+        h = hash(r[k]) & 0xFFFFFFFF
+        if h in seen:
+            pair = (seen[h], k)
+            break
+        seen[h] = k
+    seen = None
+    stats = {"collision_scenarios": 1}
+    exp = (co["x"] + 1, co["x"] * 2, co["x"] + 1 + co["x"] * 2)
+    if pair is None:
+        return {"violation": None, "nontrivial": False, "stats": stats, "extra": {"steps": [digest(list(exp))]}, "trace_digest": digest(list(exp))}
+    X, Y = pair
+    stats["collision_pairs_found"] = 1
+    if hash(r[X]) == hash(r[Y]):
+        stats["full_hash_collisions"] = 1
+    for k in ("p", "s", X, Y):
+        dict.__setitem__(d, k + salt if k in ("p", "s") else k, 0.0)
+    p, s_ = "p" + salt, "s" + salt
+    defs = {"X": lambda: r.__setitem__(X, r[p] + 1), "Y": lambda: r.__setitem__(Y, r[p] * 2), "s": lambda: r.__setitem__(s_, r[X] + r[Y])}
+    viol = None
+    try:
+        for ch in co["order"]:
+            defs[ch]()
+        r[p] = co["x"]
+    except SimStall:
+        raise
+    except Exception as e:
+        viol = Violation(prop + ".collision.exception", "two task ids with colliding hashes: %s: %s" % (type(e).__name__, e))
+    got = (dict.__getitem__(d, X), dict.__getitem__(d, Y), dict.__getitem__(d, s_))
+    if viol is None and got != exp:
+        viol = Violation(prop + ".collision.content", "task ids %s and %s have the same 32-bit hash; after assigning the common input the three dependants hold %s, expected %s"
+                         % (X, Y, got, exp))
+    return {"violation": (dict(viol.to_json(), step=None) if viol else None), "nontrivial": True, "stats": stats,
+            "extra": {"steps": [digest(list(got))]}, "trace_digest": digest(list(got))}
